@@ -126,13 +126,14 @@ func genC34(rt *rapid.T) any {
 	opGen := rapid.Custom(func(rt *rapid.T) Op {
 		op := Op{Kind: opKinds[pickWeighted(rt, "kind", kindW)]}
 		if op.Kind == "stuff" {
-			op.Ts = rapid.SliceOfN(tgt, 0, maxStuff).Draw(rt, "stuffed")
+			op.Ts = rapid.SliceOfN(tgt, rapid.IntRange(0, maxStuff).Draw(rt, "minstuff"), maxStuff).Draw(rt, "stuffed")
 		} else {
 			op.T = genTarget(rt, selW)
 		}
 		return op
 	})
-	p.Ops = append(p.Ops, rapid.SliceOfN(opGen, 1, 60).Draw(rt, "ops")...)
+	minOps := rapid.IntRange(1, 40).Draw(rt, "minops") // SliceOfN alone strongly favours lengths near its minimum
+	p.Ops = append(p.Ops, rapid.SliceOfN(opGen, minOps, 60).Draw(rt, "ops")...)
 	return p
 }
 
